@@ -612,9 +612,12 @@ func remapBlockHandles(block Block, handleMap []ExpressionHandle) {
 	for i := range block {
 		switch k := block[i].Kind.(type) {
 		case StmtEmit:
-			// Remap emit range
-			k.Range.Start = remap(k.Range.Start)
-			k.Range.End = remap(k.Range.End)
+			// Remap emit range. End is exclusive and may equal the old arena
+			// length, so map the last covered expression instead.
+			if k.Range.End > k.Range.Start {
+				k.Range.Start = remap(k.Range.Start)
+				k.Range.End = remap(k.Range.End-1) + 1
+			}
 			block[i].Kind = k
 		case StmtStore:
 			k.Pointer = remap(k.Pointer)
